@@ -135,9 +135,11 @@ func (r *run) remove(desc string, probe *qt.Pt, eq quadtree.FilterFunc, accept f
 		}
 	}
 	var gone []*qt.Pt
-	for _, x := range r.m.Live {
+	for _, x := range r.m.Live { // one entry per stored occurrence: consume what is left
 		if left[x] == 0 {
 			gone = append(gone, x)
+		} else {
+			left[x]--
 		}
 	}
 	if !want {
@@ -216,7 +218,7 @@ func RunHistory(t *core.T) {
 		for i := 0; i < n; i++ {
 			p := r.w.Pool[dup]
 			if i%3 != 0 {
-				p = orb.Point{r.w.Bound.Min[0] + float64(s.Intn(int(2*r.w.W*16)+1, "px"))/16, r.w.Bound.Min[1] + float64(s.Intn(int(2*r.w.W*16)+1, "py"))/16}
+				p = orb.Point{r.w.Bound.Min[0] + float64(s.Intn(int(2*r.w.W*16)+1, "px"))/16, r.w.Bound.Min[1] + float64(s.Intn(int(2*r.w.H*16)+1, "py"))/16}
 			}
 			x := r.newPt(p)
 			if t.Guard("Add", func() { r.tr.Add(x) }) {
@@ -262,8 +264,11 @@ func RunHistory(t *core.T) {
 				return
 			}
 			x := r.all[s.Intn(len(r.all), "re")]
-			if !r.w.Bound.Contains(x.P) || r.live(x) {
-				return // the same identity is never stored twice: contents stay a set of identities
+			if !r.w.Bound.Contains(x.P) {
+				return
+			}
+			if r.live(x) && !s.Chance(1, 3, "same-pointer-again") {
+				return // mostly re-add removed pointers; sometimes store the same pointer twice (a multiset)
 			}
 			r.add(x, true)
 		case 3: // remove by identity (live, removed, or never added pointer)
@@ -319,7 +324,7 @@ var tinyPts = []orb.Point{{0, 0}, {1, 1}, {0, -0.5}, {0.25, 0.25}, {0.375, 0.125
 // RunTiny: short mutation histories with a full query sweep after every step.
 func RunTiny(t *core.T) {
 	s := t.Src
-	w := &qt.World{Bound: orb.Bound{Min: orb.Point{-1, -1}, Max: orb.Point{1, 1}}, W: 1, Pool: tinyPts, Out: []orb.Point{{2, 0}}}
+	w := &qt.World{Bound: orb.Bound{Min: orb.Point{-1, -1}, Max: orb.Point{1, 1}}, W: 1, H: 1, Pool: tinyPts, Out: []orb.Point{{2, 0}}}
 	r := &run{t: t, w: w, tr: quadtree.New(w.Bound)}
 	hist := uint64(0xC11)
 	n := 6
